@@ -324,6 +324,21 @@ class Path:
         self.obligations.append(ob)
         return ob
 
+    def lemma_instance(self, name, kinds, body, inst):
+        """Engine-level arithmetic lemma: `body(*vars)` is proved once per path in a clean
+        solver over fresh variables (recorded as a helper obligation); its instance at the
+        terms `inst` is then added as a fact."""
+        key = ("engine-lemma", name)
+        if key not in self.ghosts:
+            vs = [z3.Int(values.fresh_name("EL_%s_%d" % (name, i))) if k == "int" else z3.Real(values.fresh_name("EL_%s_%d" % (name, i)))
+                  for i, k in enumerate(kinds)]
+            ob = self.prove_isolated("engine-lemma/" + name, body(*vs), level="helper")
+            self.ghosts[key] = ob.status
+        if self.ghosts[key] == "proved":
+            f = body(*inst)
+            if not isinstance(f, bool):
+                self.sink.add(f)
+
     def _fallback(self, name, neg, dt, level, aux=()):
         from .solver import cvc5_check
 
